@@ -375,6 +375,8 @@ struct Generated {
     inputs: Vec<Input>,
     /// for well-typed MiniGluon inputs: (input id, s-expression of the program, program) — model prediction
     model: Vec<(usize, String, Program)>,
+    /// ids of trivial inputs (a MiniGluon program that is a bare literal or binds nothing, unmutated)
+    trivial: BTreeSet<usize>,
     hist: Hist,
 }
 
@@ -386,6 +388,7 @@ fn generate_inputs(seed: u64, n_total: usize, n_std: usize) -> Generated {
     let mut rng = Rng::new(seed ^ 0xC16);
     let mut inputs: Vec<Input> = Vec::new();
     let mut model = Vec::new();
+    let mut trivial = BTreeSet::new();
     let mut hist = Hist::default();
     let mut seen: BTreeSet<String> = BTreeSet::new();
     let mut push = |inputs: &mut Vec<Input>, hist: &mut Hist, group: &str, kind: Kind, prelude: bool, src: String, rng: &mut Rng| -> Option<usize> {
@@ -441,6 +444,9 @@ fn generate_inputs(seed: u64, n_total: usize, n_std: usize) -> Generated {
             if kind == Kind::Run && p.ty.is_first_order(&p.types) {
                 model.push((id, mg::sexp::program_to_sexp(&p), p.clone()));
             }
+            if !p.nontrivial() {
+                trivial.insert(id);
+            }
         }
         // 1..3 mutants of it
         let nm = 1 + rng.below(3);
@@ -462,7 +468,7 @@ fn generate_inputs(seed: u64, n_total: usize, n_std: usize) -> Generated {
             push(&mut inputs, &mut hist, &format!("mg-mut:{}", kinds[0]), kind, false, src, &mut rng);
         }
     }
-    Generated { inputs, model, hist }
+    Generated { inputs, model, trivial, hist }
 }
 
 /// Unrelated work for history H2: well-typed and ill-typed programs from another seed.
@@ -689,7 +695,7 @@ fn run_history(spec: &str, inputs: &[Input], emit: &mut dyn FnMut(&str, &Input, 
                     let vm2 = vm.clone();
                     let inp2 = inp.clone();
                     std::thread::Builder::new()
-                        .stack_size(64 << 20)
+                        .stack_size(1 << 30)
                         .spawn(move || observe(&vm2, &inp2))
                         .expect("spawn")
                         .join()
@@ -717,28 +723,105 @@ fn run_history(spec: &str, inputs: &[Input], emit: &mut dyn FnMut(&str, &Input, 
     }
 }
 
-/// child <inputs.tsv> <spec> <obs-out> <trace-out>
+/// CPU seconds (user + system, all threads of the child) one evaluation may burn before the child's
+/// watchdog aborts the process; wall-clock time is not used because the machine may be loaded.
+/// The first evaluation on a VM with the implicit prelude compiles the prelude, hence the larger
+/// allowance for prelude inputs.  A blocked (not spinning) evaluation is caught by the wall limit.
+const EVAL_CPU_LIMIT_S: u64 = 20;
+const EVAL_CPU_LIMIT_PRELUDE_S: u64 = 150;
+const EVAL_WALL_LIMIT_S: u64 = 600;
+const EVAL_LIMIT_S: u64 = EVAL_CPU_LIMIT_S;
+
+/// CPU time of this process in milliseconds (/proc/self/stat utime + stime, 100 ticks per second).
+fn cpu_ms() -> u64 {
+    let s = std::fs::read_to_string("/proc/self/stat").unwrap_or_default();
+    // the command name may contain spaces: fields start after the last ')'
+    let rest = s.rsplit_once(')').map(|x| x.1).unwrap_or("");
+    let f: Vec<&str> = rest.split_whitespace().collect();
+    // rest starts at field 3 (state): utime = field 14, stime = field 15
+    let ut: u64 = f.get(11).and_then(|x| x.parse().ok()).unwrap_or(0);
+    let st: u64 = f.get(12).and_then(|x| x.parse().ok()).unwrap_or(0);
+    (ut + st) * 10
+}
+
+/// child <inputs.tsv> <spec> <obs-out> <trace-out> <progress-out>
+///
+/// Every file is written incrementally: the trace line and a `B <id>` progress line BEFORE an
+/// evaluation, the observation and an `E <id>` progress line after it, so that the parent can
+/// attribute a death of the process (abort, stack overflow, watchdog) to the exact input.
 fn child_main(rest: &[String]) {
+    use std::sync::atomic::{AtomicU64, Ordering};
+    use std::sync::Arc;
     let inputs = read_inputs(Path::new(&rest[0]));
     let spec = rest[1].clone();
-    let mut obs = std::io::BufWriter::new(std::fs::File::create(&rest[2]).expect("obs out"));
-    let mut tr = std::io::BufWriter::new(std::fs::File::create(&rest[3]).expect("trace out"));
-    let mut lines: Vec<String> = Vec::new();
-    let mut tlines: Vec<String> = Vec::new();
+    let obs = std::cell::RefCell::new(std::fs::File::create(&rest[2]).expect("obs out"));
+    let tr = std::cell::RefCell::new(std::fs::File::create(&rest[3]).expect("trace out"));
+    let progress = std::cell::RefCell::new(std::fs::File::create(&rest[4]).expect("progress out"));
+    // watchdog: `started` = CPU ms (+1) at the start of the running evaluation, 0 when idle;
+    // `limit` = its CPU allowance in ms; `started_wall` likewise in wall ms
+    let started = Arc::new(AtomicU64::new(0));
+    let started_wall = Arc::new(AtomicU64::new(0));
+    let limit = Arc::new(AtomicU64::new(EVAL_CPU_LIMIT_S * 1000));
+    let t0 = Instant::now();
+    {
+        let started = started.clone();
+        let started_wall = started_wall.clone();
+        let limit = limit.clone();
+        let wd_path = format!("{}.watchdog", rest[4]);
+        std::thread::spawn(move || loop {
+            std::thread::sleep(Duration::from_millis(250));
+            let s = started.load(Ordering::SeqCst);
+            let w = started_wall.load(Ordering::SeqCst);
+            if s != 0 && w != 0 {
+                let cpu = cpu_ms().saturating_sub(s);
+                let wall = (t0.elapsed().as_millis() as u64).saturating_sub(w);
+                if cpu > limit.load(Ordering::SeqCst) || wall > EVAL_WALL_LIMIT_S * 1000 {
+                    let _ = std::fs::write(&wd_path, format!("cpu {} ms, wall {} ms\n", cpu, wall));
+                    std::process::abort();
+                }
+            }
+        });
+    }
+    let arm = |inp: &Input| {
+        limit.store(if inp.prelude { EVAL_CPU_LIMIT_PRELUDE_S } else { EVAL_CPU_LIMIT_S } * 1000, Ordering::SeqCst);
+        started_wall.store(t0.elapsed().as_millis() as u64 + 1, Ordering::SeqCst);
+        started.store(cpu_ms() + 1, Ordering::SeqCst);
+    };
+    let disarm = || {
+        started.store(0, Ordering::SeqCst);
+        started_wall.store(0, Ordering::SeqCst);
+    };
+    // fresh-VM histories do not call `trace`: mark the evaluation from `emit`'s counterpart below
+    let fresh = spec.starts_with("fresh");
+    if fresh {
+        for inp in &inputs {
+            writeln!(progress.borrow_mut(), "B {}", inp.id).unwrap();
+            let vm = new_vm(inp.prelude);
+            arm(inp);
+            let o = observe(&vm, inp);
+            disarm();
+            writeln!(obs.borrow_mut(), "{}\t-\t{}", inp.id, o.to_fields()).unwrap();
+            writeln!(progress.borrow_mut(), "E {}", inp.id).unwrap();
+            std::mem::forget(vm);
+        }
+        std::process::exit(0);
+    }
     run_history(
         &spec,
         &inputs,
-        &mut |tag, inp, o| lines.push(format!("{}\t{}\t{}", inp.id, if tag.is_empty() { "-" } else { tag }, o.to_fields())),
-        &mut |how, inp| tlines.push(format!("{}\t{}", how, inp.to_line())),
+        &mut |tag, inp, o| {
+            disarm();
+            writeln!(obs.borrow_mut(), "{}\t{}\t{}", inp.id, if tag.is_empty() { "-" } else { tag }, o.to_fields()).unwrap();
+            writeln!(progress.borrow_mut(), "E {}", inp.id).unwrap();
+        },
+        &mut |how, inp| {
+            writeln!(tr.borrow_mut(), "{}\t{}", how, inp.to_line()).unwrap();
+            if inp.id != usize::MAX {
+                writeln!(progress.borrow_mut(), "B {}", inp.id).unwrap();
+            }
+            arm(inp);
+        },
     );
-    for l in lines {
-        writeln!(obs, "{}", l).unwrap();
-    }
-    for l in tlines {
-        writeln!(tr, "{}", l).unwrap();
-    }
-    obs.flush().unwrap();
-    tr.flush().unwrap();
     // leave without running destructors of VMs (faster, and a crash in teardown is not our subject)
     std::process::exit(0);
 }
@@ -774,7 +857,7 @@ fn seqchild_main(rest: &[String]) {
             "os-thread" => {
                 let vm = vms.get(inp.prelude);
                 let inp2 = inp.clone();
-                std::thread::Builder::new().stack_size(64 << 20).spawn(move || observe(&vm, &inp2)).expect("spawn").join().expect("join")
+                std::thread::Builder::new().stack_size(1 << 30).spawn(move || observe(&vm, &inp2)).expect("spawn").join().expect("join")
             }
             _ => observe(&vms.get(inp.prelude), inp),
         };
@@ -808,6 +891,12 @@ struct Job {
     args: Vec<String>,
     timeout: Duration,
 }
+impl Job {
+    /// the last argument of every child invocation is an output path: stderr goes next to it
+    fn stderr_path(&self) -> String {
+        format!("{}.stderr", self.args.last().expect("job args"))
+    }
+}
 
 /// Runs the jobs with at most `workers` concurrent child processes; returns label -> (ok, note).
 fn run_jobs(jobs: Vec<Job>, workers: usize) -> BTreeMap<String, (bool, String)> {
@@ -818,10 +907,13 @@ fn run_jobs(jobs: Vec<Job>, workers: usize) -> BTreeMap<String, (bool, String)> 
     while !queue.is_empty() || !running.is_empty() {
         while running.len() < workers && !queue.is_empty() {
             let j = queue.pop_front().unwrap();
+            // stderr goes to a file (a pipe nobody drains would block a chatty child)
+            let errpath = j.stderr_path();
+            let errfile = std::fs::File::create(&errpath).expect("child stderr file");
             let ch = std::process::Command::new(&exe)
                 .args(&j.args)
                 .stdout(std::process::Stdio::null())
-                .stderr(std::process::Stdio::piped())
+                .stderr(errfile)
                 .spawn()
                 .expect("spawn child");
             running.push((j, ch, Instant::now()));
@@ -844,12 +936,9 @@ fn run_jobs(jobs: Vec<Job>, workers: usize) -> BTreeMap<String, (bool, String)> 
             };
             if let Some((ok, mut note)) = done {
                 let (j, mut ch, _) = running.swap_remove(i);
+                let _ = &mut ch;
                 if !ok {
-                    let mut err = String::new();
-                    if let Some(mut s) = ch.stderr.take() {
-                        use std::io::Read;
-                        let _ = s.read_to_string(&mut err);
-                    }
+                    let err = std::fs::read_to_string(j.stderr_path()).unwrap_or_default();
                     let tail: String = err.chars().rev().take(600).collect::<String>().chars().rev().collect();
                     note = format!("{}: {}", note, tail);
                 }
@@ -937,6 +1026,14 @@ fn diff_class(a: &str, b: &str) -> String {
     if ta.len() == tb.len() {
         let pairs: Vec<(&String, &String)> = ta.iter().zip(tb.iter()).filter(|(x, y)| x != y).collect();
         if !pairs.is_empty() {
+            // `implicit?<N>`: the name the parser gives an implicit-import binding (`{ …, ? }`),
+            // N = absolute byte position of the `?` (parser/src/grammar.lalrpop AtomicPattern)
+            let idx: Vec<usize> = (0..ta.len()).filter(|i| ta[*i] != tb[*i]).collect();
+            if idx.iter().all(|&i| {
+                i >= 2 && ta[i - 2] == "implicit" && ta[i - 1] == "?" && ta[i].chars().all(|c| c.is_ascii_digit()) && tb[i].chars().all(|c| c.is_ascii_digit())
+            }) {
+                return "implicit-import-position".to_string();
+            }
             if pairs.iter().all(|(x, y)| is_tyvar(x) && is_tyvar(y)) {
                 return "unsolved-type-variable-id".to_string();
             }
@@ -1272,6 +1369,20 @@ fn replay_main(path: &str) {
     let dir = PathBuf::from(std::env::var("VERIF_DIR").unwrap_or_else(|_| "/verif".into())).join(".cache").join("run").join("c16-replay");
     std::fs::create_dir_all(&dir).ok();
     let mut r = Repro { dir: &dir, counter: 0, probes: 0 };
+    if let Some(src) = case["group"]["source"].as_str() {
+        let vm = new_vm(false);
+        let mut seen = BTreeSet::new();
+        for k in 0..8 {
+            let o = match grouping::alt_order(&vm, &format!("replay{}", k), src, "scrut_v") {
+                Ok(v) => v.join(" "),
+                Err(e) => format!("error {}", e),
+            };
+            println!("compilation {}: {}", k, o);
+            seen.insert(o);
+        }
+        println!("{}", if seen.len() > 1 { "REPRODUCED: the order of the alternatives varies between compilations of the same source" } else { "not reproduced" });
+        return;
+    }
     let a = seq_from_json(&case["history_a"]);
     let b = seq_from_json(&case["history_b"]);
     if a.is_empty() || b.is_empty() {
@@ -1302,7 +1413,18 @@ fn replay_main(path: &str) {
 }
 
 fn main() {
+    // the compiler recurses deeply on nested programs (debug build): run everything on a big stack
+    let h = std::thread::Builder::new().stack_size(1 << 30).spawn(real_main).expect("spawn main thread");
+    if h.join().is_err() {
+        std::process::exit(101);
+    }
+}
+
+fn real_main() {
     let raw: Vec<String> = std::env::args().skip(1).collect();
+    // Rust panics inside the compiler are caught and recorded as an outcome; the default hook would
+    // print (and symbolise) a backtrace for each of them
+    std::panic::set_hook(Box::new(|_| {}));
     match raw.first().map(|s| s.as_str()) {
         Some("child") => return child_main(&raw[1..]),
         Some("seqchild") => return seqchild_main(&raw[1..]),
@@ -1315,7 +1437,7 @@ fn main() {
     let t0 = Instant::now();
     let thorough = args.thorough();
     let n_total: usize = args.extra.get("n").and_then(|s| s.parse().ok()).unwrap_or(if thorough { 5000 } else { 320 });
-    let n_std: usize = args.extra.get("std").and_then(|s| s.parse().ok()).unwrap_or(if thorough { 240 } else { 30 });
+    let n_std: usize = args.extra.get("std").and_then(|s| s.parse().ok()).unwrap_or(if thorough { 240 } else { 24 });
     let batch_size: usize = args.extra.get("batch").and_then(|s| s.parse().ok()).unwrap_or(if thorough { 500 } else { 400 });
     let workers: usize = args.extra.get("workers").and_then(|s| s.parse().ok()).unwrap_or(8);
     let child_timeout = Duration::from_secs(if thorough { 900 } else { 170 });
@@ -1324,50 +1446,150 @@ fn main() {
     let inputs = &generated.inputs;
     let by_id: BTreeMap<usize, &Input> = inputs.iter().map(|i| (i.id, i)).collect();
 
+    let mut hist = generated.hist;
     // ---- batches × histories, each in its own process
     let specs = history_specs(args.seed);
-    let mut jobs = Vec::new();
-    let mut batch_files = Vec::new();
-    for (b, chunk) in inputs.chunks(batch_size).enumerate() {
-        let f = args.out.join(format!("inputs-{}.tsv", b));
-        write_inputs(&f, chunk);
-        batch_files.push(f.clone());
-        for s in &specs {
-            let label = format!("{}@{}", s, b);
-            jobs.push(Job {
-                label: label.clone(),
-                args: vec![
-                    "child".into(),
-                    f.to_string_lossy().into(),
-                    s.clone(),
-                    args.out.join(format!("obs-{}.tsv", fname(&label))).to_string_lossy().into(),
-                    args.out.join(format!("trace-{}.tsv", fname(&label))).to_string_lossy().into(),
-                ],
-                timeout: child_timeout,
-            });
-        }
-    }
-    let n_jobs = jobs.len();
-    let job_res = run_jobs(jobs, workers);
-    let t_hist = t0.elapsed().as_secs_f64();
-
-    // ---- collect: input id -> [(history label, obs)]
     let mut table: BTreeMap<usize, Vec<(String, Obs)>> = BTreeMap::new();
     let mut failed_jobs = Vec::new();
     let mut evaluations = 0u64;
-    for (label, (ok, note)) in &job_res {
-        if !*ok {
-            failed_jobs.push(serde_json::json!({"history": label, "note": note}));
+    let mut n_jobs = 0usize;
+    // inputs on which the implementation dies or hangs even alone on a fresh VM (deterministically):
+    // not this property's subject (C09/C06), excluded from the histories and listed in the evidence
+    let mut excluded: Vec<serde_json::Value> = Vec::new();
+    let mut excluded_ids: BTreeSet<usize> = BTreeSet::new();
+    // inputs on which a child died in some history although they evaluate alone
+    let mut crash_findings: Vec<(usize, String, String, String)> = Vec::new();
+
+    struct Pending {
+        label: String,
+        spec: String,
+        attempt: usize,
+        inputs: Vec<Input>,
+    }
+    let mk_job = |p: &Pending, out: &Path, timeout: Duration| -> Job {
+        let stem = format!("{}.{}", fname(&p.label), p.attempt);
+        let f = out.join(format!("in-{}.tsv", stem));
+        write_inputs(&f, &p.inputs);
+        Job {
+            label: p.label.clone(),
+            args: vec![
+                "child".into(),
+                f.to_string_lossy().into(),
+                p.spec.clone(),
+                out.join(format!("obs-{}.tsv", stem)).to_string_lossy().into(),
+                out.join(format!("trace-{}.tsv", stem)).to_string_lossy().into(),
+                out.join(format!("progress-{}.tsv", stem)).to_string_lossy().into(),
+            ],
+            timeout,
         }
-        for (id, tag, o) in read_obs(&args.out.join(format!("obs-{}.tsv", fname(label)))) {
+    };
+    // the input a dead child was evaluating: last `B id` of the progress file without an `E id`
+    let culprit = |out: &Path, p: &Pending| -> Option<usize> {
+        let stem = format!("{}.{}", fname(&p.label), p.attempt);
+        let text = std::fs::read_to_string(out.join(format!("progress-{}.tsv", stem))).ok()?;
+        let last = text.lines().last()?;
+        last.strip_prefix("B ").and_then(|x| x.parse().ok())
+    };
+    let death_reason = |out: &Path, p: &Pending, note: &str| -> String {
+        let stem = format!("{}.{}", fname(&p.label), p.attempt);
+        if out.join(format!("progress-{}.tsv.watchdog", stem)).exists() {
+            format!("no answer within {} s of CPU time (watchdog)", EVAL_LIMIT_S)
+        } else if note.contains("overflowed its stack") {
+            "stack overflow of the host (1 GiB stack)".to_string()
+        } else {
+            format!("process died: {}", note.chars().take(200).collect::<String>().replace('\n', " | "))
+        }
+    };
+
+    // phase 1 — filter: every input alone on a fresh VM (this is also history `fresh:r=0`)
+    let slices = (workers * 2).max(1);
+    let mut pending: Vec<Pending> = Vec::new();
+    {
+        let per = (inputs.len() + slices - 1) / slices;
+        for (k, chunk) in inputs.chunks(per.max(1)).enumerate() {
+            pending.push(Pending { label: format!("fresh:r=0@s{}", k), spec: "fresh:r=0".into(), attempt: 0, inputs: chunk.to_vec() });
+        }
+    }
+    while !pending.is_empty() {
+        let jobs: Vec<Job> = pending.iter().map(|p| mk_job(p, &args.out, child_timeout)).collect();
+        n_jobs += jobs.len();
+        let res = run_jobs(jobs, workers);
+        let mut next = Vec::new();
+        for p in pending {
+            let stem = format!("{}.{}", fname(&p.label), p.attempt);
+            for (id, _tag, o) in read_obs(&args.out.join(format!("obs-{}.tsv", stem))) {
+                evaluations += 1;
+                table.entry(id).or_default().push(("fresh:r=0".to_string(), o));
+            }
+            let (ok, note) = res.get(&p.label).cloned().unwrap_or((false, "no result".into()));
+            if ok {
+                continue;
+            }
+            match culprit(&args.out, &p) {
+                Some(x) if p.attempt < 200 => {
+                    let inp = by_id[&x];
+                    let reason = death_reason(&args.out, &p, &note);
+                    hist.add("excluded:dies-or-hangs-alone");
+                    excluded.push(serde_json::json!({"id": x, "group": inp.group, "kind": if inp.kind == Kind::Run {"run"} else {"tc"}, "prelude": inp.prelude, "name": inp.name, "source": inp.src, "reason": reason}));
+                    excluded_ids.insert(x);
+                    let rest: Vec<Input> = p.inputs.iter().skip_while(|i| i.id != x).skip(1).cloned().collect();
+                    if !rest.is_empty() {
+                        next.push(Pending { label: p.label.clone(), spec: p.spec.clone(), attempt: p.attempt + 1, inputs: rest });
+                    }
+                }
+                _ => failed_jobs.push(serde_json::json!({"history": p.label, "note": note})),
+            }
+        }
+        pending = next;
+    }
+    let t_filter = t0.elapsed().as_secs_f64();
+
+    // phase 2 — the other histories over the surviving inputs, batch by batch
+    let survivors: Vec<Input> = inputs.iter().filter(|i| !excluded_ids.contains(&i.id)).cloned().collect();
+    let mut pending: Vec<Pending> = Vec::new();
+    for (b, chunk) in survivors.chunks(batch_size).enumerate() {
+        for sp in specs.iter().filter(|sp| sp.as_str() != "fresh:r=0") {
+            pending.push(Pending { label: format!("{}@{}", sp, b), spec: sp.clone(), attempt: 0, inputs: chunk.to_vec() });
+        }
+    }
+    let mut final_stem: BTreeMap<String, String> = BTreeMap::new();
+    while !pending.is_empty() {
+        let jobs: Vec<Job> = pending.iter().map(|p| mk_job(p, &args.out, child_timeout)).collect();
+        n_jobs += jobs.len();
+        let res = run_jobs(jobs, workers);
+        let mut next = Vec::new();
+        for p in pending {
+            let stem = format!("{}.{}", fname(&p.label), p.attempt);
+            let (ok, note) = res.get(&p.label).cloned().unwrap_or((false, "no result".into()));
+            if ok {
+                final_stem.insert(p.label.clone(), stem);
+                continue;
+            }
+            match culprit(&args.out, &p) {
+                Some(x) if p.attempt < 20 => {
+                    // the input evaluates alone but the process died in this history: history-dependent
+                    crash_findings.push((x, p.label.clone(), death_reason(&args.out, &p, &note), stem.clone()));
+                    let rest: Vec<Input> = p.inputs.iter().filter(|i| i.id != x).cloned().collect();
+                    next.push(Pending { label: p.label.clone(), spec: p.spec.clone(), attempt: p.attempt + 1, inputs: rest });
+                }
+                _ => {
+                    final_stem.insert(p.label.clone(), stem);
+                    failed_jobs.push(serde_json::json!({"history": p.label, "note": note}));
+                }
+            }
+        }
+        pending = next;
+    }
+    for (label, stem) in &final_stem {
+        for (id, tag, o) in read_obs(&args.out.join(format!("obs-{}.tsv", stem))) {
             evaluations += 1;
             let l = if tag == "-" { label.clone() } else { format!("{}#{}", label, tag) };
             table.entry(id).or_default().push((l, o));
         }
     }
+    let t_hist = t0.elapsed().as_secs_f64();
 
     // ---- compare
-    let mut hist = generated.hist;
     let mut differing: Vec<(usize, String, String, String)> = Vec::new(); // (input, component, ref history, deviating history)
     let mut n_compared = 0u64;
     let mut incomplete = 0u64;
@@ -1412,6 +1634,7 @@ fn main() {
     let mut repro = Repro { dir: &repro_dir, counter: 0, probes: 0 };
     let mut findings: Vec<serde_json::Value> = Vec::new();
     let mut per_class: BTreeMap<String, usize> = BTreeMap::new();
+    let mut reproduced: BTreeSet<(usize, String)> = BTreeSet::new();
     let mut class_total: BTreeMap<String, usize> = BTreeMap::new();
     for (id, comp, ref_l, dev_l) in &differing {
         let obs = &table[id];
@@ -1425,15 +1648,19 @@ fn main() {
         let class = diff_class(ro.get(comp), dv.get(comp));
         let key = format!("nondeterministic-{}:{}", kindname, class);
         *class_total.entry(key.clone()).or_insert(0) += 1;
+        // `display` is a second rendering of the same error: one reproduction per (input, class)
+        if !reproduced.insert((*id, key.clone())) {
+            continue;
+        }
         let cnt = per_class.entry(key.clone()).or_insert(0);
-        if *cnt >= 3 {
+        if *cnt >= 2 {
             continue;
         }
         *cnt += 1;
         let inp = by_id[id];
         // the evaluation sequence of the deviating history up to and including this input
         let dev_hist = dev_l.split('#').next().unwrap().to_string();
-        let trace = read_trace(&args.out.join(format!("trace-{}.tsv", fname(&dev_hist))));
+        let trace = read_trace(&args.out.join(format!("trace-{}.tsv", final_stem.get(&dev_hist).cloned().unwrap_or_else(|| fname(&dev_hist)))));
         let mut seq_b: Vec<(String, Input)> = Vec::new();
         let second = dev_l.ends_with("#second");
         let mut hits = 0;
@@ -1511,18 +1738,44 @@ fn main() {
         }));
     }
 
+    for (x, label, reason, stem) in crash_findings.iter().take(5) {
+        let inp = by_id[x];
+        let trace = read_trace(&args.out.join(format!("trace-{}.tsv", stem)));
+        let mut seq_b: Vec<(String, Input)> = Vec::new();
+        for (how, t) in &trace {
+            seq_b.push((how.clone(), t.clone()));
+        }
+        findings.push(serde_json::json!({
+            "key": "nondeterministic-value:dies-only-in-some-histories",
+            "class": "dies-only-in-some-histories",
+            "component": "value",
+            "headline": "",
+            "input": {"id": x, "group": inp.group, "name": inp.name, "kind": if inp.kind == Kind::Run {"run"} else {"tc"}, "prelude": inp.prelude, "source": inp.src},
+            "reference_history": "fresh:r=0",
+            "deviating_history": label,
+            "note": format!("evaluates alone on a fresh VM, but the process died in history {}: {}", label, reason),
+            "history_a": seq_to_json(&[("vm".to_string(), inp.clone())]),
+            "history_b": seq_to_json(&seq_b),
+            "text_a": table.get(x).and_then(|v| v.first()).map(|o| o.1.value.clone()).unwrap_or_default(),
+            "text_b": reason,
+        }));
+    }
+
     // ---- model ties: evaluator prediction + grouping
     let mut model_in = args.file("model_in.txt");
     let mut impl_out = args.file("impl_out.txt");
     let mut cases = args.file("cases.txt");
     let mut n_model = 0u64;
     {
-        // (a) first-order well-typed MiniGluon programs: typed canonical outcome, one VM
-        let mut vm = mg::run::new_vm();
+        // (a) first-order well-typed MiniGluon programs: typed canonical outcome, one VM.  The
+        // reference semantics is the one of the UNOPTIMISED pipeline (what the optimiser may drop is
+        // C04's subject), so this VM has `optimize` off.
+        let unopt = mg::run::VmOptions { prelude: false, optimize: Some(false) };
+        let mut vm = mg::run::new_vm_with(&unopt);
         let mut count = 0;
         for (id, sx, p) in &generated.model {
             if count % 1000 == 999 {
-                vm = mg::run::new_vm();
+                vm = mg::run::new_vm_with(&unopt);
             }
             count += 1;
             let inp = by_id[id];
@@ -1540,6 +1793,7 @@ fn main() {
         }
     }
     let mut n_group = 0u64;
+    let mut group_findings = 0;
     let mut group_distinct = BTreeSet::new();
     {
         let n = if thorough { 3000 } else { 400 };
@@ -1550,14 +1804,32 @@ fn main() {
                 vm = new_vm(false);
             }
             let c = gen_group_case(&mut rng);
-            let got = grouping::alt_order(&vm, &format!("grp{}", i), &c.src, "scrut_v");
-            let line = match got {
+            let render = |got: Result<Vec<String>, String>| match got {
                 Ok(v) => v.join(" "),
                 Err(e) => format!("error {}", e.replace('\n', " | ")),
             };
-            // the literal case matches on a pair: the real compiler first destructures the tuple, the
-            // match on the first component is the one over a fresh variable — handled in alt_order's
-            // caller by scrutinee name only for constructors; literal cases are looked up separately
+            // compiled twice (two module names): every std HashMap instance has its own random
+            // state, so an order that leaked from the map would differ between the two
+            let line = render(grouping::alt_order(&vm, &format!("grp{}", i), &c.src, "scrut_v"));
+            let line2 = render(grouping::alt_order(&vm, &format!("grp{}b", i), &c.src, "scrut_v"));
+            if line != line2 && group_findings < 3 {
+                group_findings += 1;
+                findings.push(serde_json::json!({
+                    "key": format!("nondeterministic-match-order:{}", c.what),
+                    "class": c.what,
+                    "component": "order of the alternatives of the compiled match",
+                    "headline": "",
+                    "input": {"id": i, "group": "grouping", "name": format!("grp{}", i), "kind": "compile", "prelude": false, "source": c.src},
+                    "reference_history": "first compilation",
+                    "deviating_history": "second compilation on the same VM",
+                    "note": "two compilations of the same source emit the alternatives in different orders",
+                    "history_a": [],
+                    "history_b": [],
+                    "group_case": {"source": c.src, "scrutinee": "scrut_v"},
+                    "text_a": line,
+                    "text_b": line2,
+                }));
+            }
             let _ = c.catch_all;
             writeln!(model_in, "group {} {} {}", c.what, c.n_ctors, c.keys.join(" ")).unwrap();
             writeln!(impl_out, "{}", line).unwrap();
@@ -1571,7 +1843,7 @@ fn main() {
     cases.flush().unwrap();
 
     // ---- stats
-    let distinct: BTreeSet<u64> = inputs.iter().map(|i| fnv(i.key().as_bytes())).collect();
+    let distinct: BTreeSet<u64> = inputs.iter().filter(|i| !generated.trivial.contains(&i.id)).map(|i| fnv(i.key().as_bytes())).collect();
     let samples: Vec<serde_json::Value> = [0usize, inputs.len() / 3, inputs.len() / 2, inputs.len() - 1]
         .iter()
         .filter_map(|i| inputs.get(*i))
@@ -1590,6 +1862,8 @@ fn main() {
             "observations": evaluations,
             "comparisons": n_compared,
             "inputs_with_incomplete_histories": incomplete,
+            "excluded_inputs": excluded,
+            "wall_filter_s": t_filter,
             "differing": differing.len(),
             "class_totals": class_total,
             "findings": findings,
@@ -1601,7 +1875,8 @@ fn main() {
         &serde_json::json!({
             "evaluations": evaluations + n_model + n_group,
             "distinct_nontrivial": distinct.len() + group_distinct.len(),
-            "rule": "one case = (module name, entry point run_expr|typecheck_str, prelude setting, source text), distinct by FNV of that tuple; every input contains at least one binder, operator or import (bare literals are not generated); grouping cases distinct by key sequence; evaluations = observations over all histories + model-predicted programs + grouping cases",
+            "rule": "one case = (module name, entry point run_expr|typecheck_str, prelude setting, source text), distinct by FNV of that tuple; an unmutated MiniGluon program that is a single node or binds no variable (Program::nontrivial() false) is trivial and not counted; templates, mutants and corpus files always contain a binder, an application or an import; grouping cases distinct by key sequence; evaluations = observations over all histories + model-predicted programs + grouping cases",
+            "trivial_inputs": generated.trivial.len(),
             "hist": hist.to_json(),
             "inputs": inputs.len(),
             "histories_per_input": specs.len() + 1,
